@@ -473,6 +473,16 @@ impl<'a> Sim<'a> {
     ///
     /// Returns whether or not all clients have completed.
     pub fn step(&mut self) -> Result<bool> {
+        // The duration may already be exceeded when a client is registered
+        // after earlier runs: such a client is out of time from the start,
+        // it is not entitled to one more step. (The step is still taken, every
+        // clock advances as usual.)
+        let out_of_time = self.elapsed > self.config.duration
+            && self
+                .rts
+                .values()
+                .any(|rt| rt.is_client() && rt.is_software_running());
+
         tracing::trace!(target: TRACING_TARGET, "step {}", self.steps);
 
         let tick = self.config.tick;
@@ -574,7 +584,7 @@ impl<'a> Sim<'a> {
         self.elapsed += tick;
         self.steps += 1;
 
-        if self.elapsed > self.config.duration && !is_finished {
+        if out_of_time || (self.elapsed > self.config.duration && !is_finished) {
             return Err(format!(
                 "Ran for duration: {:?} steps: {} without completing",
                 self.config.duration, self.steps,
